@@ -83,9 +83,9 @@ SPECS = [
          atoms={"self.__timer.elapsed()": ("bool", "elapsed")},
          effects={r"self\.__timer\.update\(datetime\.now\(\)\)": "timer update now", r"self\.__devices\.get_pump\('swim'\)\.speed\(self\.__speed\)": "pump swim speed setting"}),
     dict(lean="coverOpeningPoll", file="controller/filtration.py", cls="Filtration", method="do_repeat_opening", params="(position : Int)",
-         atoms={"self.get_actor('Arduino').cover_position().get()": ("int", "position")}),
+         atoms={"@Arduino.cover_position().get()": ("int", "position")}),
     dict(lean="coverClosingPoll", file="controller/filtration.py", cls="Filtration", method="do_repeat_closing", params="(position eco : Int)",
-         atoms={"self.get_actor('Arduino').cover_position().get()": ("int", "position"), "self.__cover_position_eco": ("int", "eco")}),
+         atoms={"@Arduino.cover_position().get()": ("int", "position"), "self.__cover_position_eco": ("int", "eco")}),
     dict(lean="heatingWaitingPoll", file="controller/heating.py", cls="Heating", method="do_repeat_waiting",
          params="(c : Poupool.Heating.Cfg) (s : Poupool.Heating.St) (now : Int) (pool air : Option Int) (ready allow : Bool)", atoms=_HEAT,
          effects={r"self\.__set_next_start\(\)": "set next start"}),
@@ -96,29 +96,123 @@ SPECS = [
     dict(lean="tankForceEmpty", file="controller/tank.py", cls="Tank", method="force_empty", params="(previous value halted : Bool)",
          atoms={"self.__force_empty": ("bool", "previous"), "value": ("bool", "value"), "self.is_halt()": ("bool", "halted")}),
     dict(lean="tankIsLow", file="controller/filtration.py", cls="Filtration", method="tank_is_low", returns=True, params="(isHalt isLow isFill : Bool)",
-         atoms={"self.get_actor('Tank')": ("obj", "Tank"), "tank.is_halt().get()": ("bool", "isHalt"), "tank.is_low().get()": ("bool", "isLow"),
-                "tank.is_fill().get()": ("bool", "isFill")}),
+         atoms={"@Tank": ("obj", "Tank"), "@Tank.is_halt().get()": ("bool", "isHalt"), "@Tank.is_low().get()": ("bool", "isLow"),
+                "@Tank.is_fill().get()": ("bool", "isFill")}),
     dict(lean="tankIsHigh", file="controller/filtration.py", cls="Filtration", method="tank_is_high", returns=True, params="(isHigh : Bool)",
-         atoms={"self.get_actor('Tank').is_high().get()": ("bool", "isHigh")}),
+         atoms={"@Tank.is_high().get()": ("bool", "isHigh")}),
     dict(lean="pumpStoppedInStandby", file="controller/filtration.py", cls="Filtration", method="pump_stopped_in_standby", returns=True, params="(speedStandby : Int)",
          atoms={"self.__speed_standby": ("int", "speedStandby")}),
     dict(lean="swimAllowSwim", file="controller/swim.py", cls="Swim", method="filtration_allow_swim", returns=True,
          params="(isOverflow isStandby isComfort isWintering : Bool)",
-         atoms={"self.get_actor('Filtration')": ("obj", "Filtration"), "actor.is_overflow_normal().get()": ("bool", "isOverflow"),
-                "actor.is_standby_normal().get()": ("bool", "isStandby"), "actor.is_comfort().get()": ("bool", "isComfort"),
+         atoms={"@Filtration": ("obj", "Filtration"), "@Filtration.is_overflow_normal().get()": ("bool", "isOverflow"),
+                "@Filtration.is_standby_normal().get()": ("bool", "isStandby"), "@Filtration.is_comfort().get()": ("bool", "isComfort"),
                 "self.filtration_is_wintering()": ("bool", "isWintering")}),
     dict(lean="swimIsWintering", file="controller/swim.py", cls="Swim", method="filtration_is_wintering", returns=True, params="(isWaiting isStir : Bool)",
-         atoms={"self.get_actor('Filtration')": ("obj", "Filtration"), "actor.is_wintering_waiting().get()": ("bool", "isWaiting"),
-                "actor.is_wintering_stir().get()": ("bool", "isStir")}),
+         atoms={"@Filtration": ("obj", "Filtration"), "@Filtration.is_wintering_waiting().get()": ("bool", "isWaiting"),
+                "@Filtration.is_wintering_stir().get()": ("bool", "isStir")}),
     dict(lean="heatingAllow", file="controller/heating.py", cls="Heating", method="filtration_allow_heating", returns=True, params="(isHeatingRunning : Bool)",
-         atoms={"self.get_actor('Filtration')": ("obj", "Filtration"), "actor.is_heating_running().get()": ("bool", "isHeatingRunning"),
-                "self.get_actor('Filtration').is_heating_running().get()": ("bool", "isHeatingRunning")}),
+         atoms={"@Filtration": ("obj", "Filtration"), "@Filtration.is_heating_running().get()": ("bool", "isHeatingRunning"),
+                "@Filtration.is_heating_running().get()": ("bool", "isHeatingRunning")}),
     dict(lean="heatingReady", file="controller/heating.py", cls="Heating", method="filtration_ready_for_heating", returns=True, params="(isEcoWaiting isEcoNormal : Bool)",
-         atoms={"self.get_actor('Filtration')": ("obj", "Filtration"), "actor.is_eco_waiting().get()": ("bool", "isEcoWaiting"),
-                "actor.is_eco_normal().get()": ("bool", "isEcoNormal")}),
+         atoms={"@Filtration": ("obj", "Filtration"), "@Filtration.is_eco_waiting().get()": ("bool", "isEcoWaiting"),
+                "@Filtration.is_eco_normal().get()": ("bool", "isEcoNormal")}),
     dict(lean="heatingHeatingPoll", file="controller/heating.py", cls="Heating", method="do_repeat_heating",
          params="(c : Poupool.Heating.Cfg) (s : Poupool.Heating.St) (pool air : Option Int)", atoms=_HEAT),
 ]
+
+
+# ------------------------------------------------------------------------------------------------------------------
+# private names by ROLE: the atoms above use canonical private names; what a private attribute / method is called in the tree
+# is found through its role (the public setter the dispatcher calls by name, the constructor parameter it stores, the call
+# that creates it, what a private helper reads), so that renaming a private name changes nothing here
+# ------------------------------------------------------------------------------------------------------------------
+_COMMON = {"__temperature": ("param", "temperature"), "__devices": ("param", "devices"), "__encoder": ("param", "encoder"),
+           "__machine": ("init_call", "PoupoolModel")}
+ROLES = {
+    "Tank": {**_COMMON, "__force_empty": ("setter", "force_empty"), "__get_tank_height": ("method_containing", "get_sensor('tank')")},
+    "Filtration": {**_COMMON, "__cover_position_eco": ("setter", "cover_position_eco"), "__backwash_period": ("setter", "backwash_period"),
+                   "__backwash_last": ("setter", "backwash_last"), "__speed_standby": ("setter", "speed_standby")},
+    "Swim": {**_COMMON, "__timer": ("setter", "timer"), "__speed": ("setter", "speed")},
+    "Heating": {**_COMMON, "__enable": ("setter", "enable"), "__setpoint": ("setter", "setpoint"), "__min_temp": ("setter", "min_temp"),
+                "__next_start": ("init_value", "datetime.now()"), "__read_temperature": ("method_containing", ".get_temperature("),
+                "__set_next_start": ("method_assigning", "__next_start")},
+}
+
+
+def _self_attr(node):
+    """name X of `self.X` or of the base of `self.X.y...`"""
+    while isinstance(node, ast.Attribute):
+        if isinstance(node.value, ast.Name) and node.value.id == "self":
+            return node.attr
+        node = node.value
+    return None
+
+
+def resolve_roles(cdef: ast.ClassDef, cls: str):
+    """{actual private name -> canonical private name} for class `cls`"""
+    out = {}
+    methods = {f.name: f for f in cdef.body if isinstance(f, ast.FunctionDef)}
+    init = methods.get("__init__")
+    init_params = [a.arg for a in init.args.args[1:]] if init else []
+    pending = []
+    for canon, (kind, arg) in ROLES.get(cls, {}).items():
+        actual = None
+        if kind == "setter" and arg in methods:
+            f = methods[arg]
+            params = {a.arg for a in f.args.args[1:]}
+            for n in ast.walk(f):
+                if isinstance(n, ast.Assign) and len(n.targets) == 1 and any(isinstance(x, ast.Name) and x.id in params for x in ast.walk(n.value)):
+                    a = _self_attr(n.targets[0])
+                    if a and a.startswith("__"):
+                        actual = a
+                        break
+        elif kind == "param" and init is not None and arg in init_params:
+            for n in init.body:
+                if isinstance(n, ast.Assign) and isinstance(n.value, ast.Name) and n.value.id == arg:
+                    a = _self_attr(n.targets[0])
+                    if a:
+                        actual = a
+                        break
+        elif kind == "init_call" and init is not None:
+            for n in init.body:
+                if isinstance(n, ast.Assign) and isinstance(n.value, ast.Call) and ast.unparse(n.value.func).split(".")[-1] == arg:
+                    actual = _self_attr(n.targets[0])
+                    break
+        elif kind == "init_value" and init is not None:
+            for n in init.body:
+                if isinstance(n, ast.Assign) and ast.unparse(n.value) == arg:
+                    actual = _self_attr(n.targets[0])
+                    break
+        elif kind == "method_containing":
+            for name, f in methods.items():
+                if name.startswith("__") and not name.endswith("__") and arg in ast.unparse(f):
+                    actual = name
+                    break
+        elif kind == "method_assigning":
+            pending.append((canon, arg))
+            continue
+        if actual:
+            out[actual] = canon
+    inv = {v: k for k, v in out.items()}
+    for canon, role in pending:
+        target = inv.get(role, role)
+        for name, f in methods.items():
+            if name.startswith("__") and not name.endswith("__") and any(
+                    isinstance(n, (ast.Assign, ast.AugAssign)) and _self_attr(n.targets[0] if isinstance(n, ast.Assign) else n.target) == target for n in ast.walk(f)):
+                out[name] = canon
+                break
+    return {a: c for a, c in out.items() if a != c}
+
+
+class _Canon(ast.NodeTransformer):
+    def __init__(self, ren):
+        self.ren = ren
+
+    def visit_Attribute(self, node):
+        self.generic_visit(node)
+        if isinstance(node.value, ast.Name) and node.value.id == "self" and node.attr in self.ren:
+            node.attr = self.ren[node.attr]
+        return node
 
 
 # ------------------------------------------------------------------------------------------------------------------
@@ -301,9 +395,29 @@ class Exec:
             return self.with_opts(reads, env, lambda e: Ite(f"{self.subst(a, e)} {sym} {self.subst(b, e)}", kt(e), kf(e)))
         raise Opaque(s)
 
+    def key_of(self, node, env):
+        """source text of an expression, with the object a call chain starts from written `@<Actor>` when it is
+        `self.get_actor('<Actor>')` or a local bound to it (so that the name of such a local does not matter)"""
+        import copy
+
+        class R(ast.NodeTransformer):
+            def visit_Call(s2, n):
+                if ast.unparse(n.func) == "self.get_actor" and len(n.args) == 1 and isinstance(n.args[0], ast.Constant):
+                    return ast.Name(id="@" + str(n.args[0].value), ctx=ast.Load())
+                s2.generic_visit(n)
+                return n
+
+            def visit_Name(s2, n):
+                b = env["locals"].get(n.id)
+                if b is not None and b[0] == "obj":
+                    return ast.Name(id="@" + b[1], ctx=ast.Load())
+                return n
+
+        return ast.unparse(R().visit(copy.deepcopy(node)))
+
     def lookup(self, node, env):
         """binding (kind, lean) of an expression that is a written attribute, an atom or a local; None otherwise"""
-        s = unp(node)
+        s = self.key_of(node, env)
         if s in env.get("attrs", {}):
             return env["attrs"][s]
         if s in self.ctx.atoms:
@@ -340,9 +454,9 @@ class Exec:
         return b[1] if b is not None and b[0] == "opt" else None
 
     # ---------------------------------------------------------------- statements
-    def effect_of_call(self, node):
+    def effect_of_call(self, node, env):
         """effect string of an expression statement; None = ignored"""
-        s = unp(node)
+        s = self.key_of(node, env)
         if re.match(r"^logger\.\w+\(", s):
             return None
         for rx, eff in self.ctx.user_effects:
@@ -351,10 +465,10 @@ class Exec:
         m = re.match(r"^self\._proxy\.(\w+)\.defer\(\)$", s)
         if m:
             return f"tell self {m.group(1)}"
-        m = re.match(r"^self\.get_actor\('(\w+)'\)\.(\w+)\.defer\(\)$", s)
+        m = re.match(r"^@(\w+)\.(\w+)\.defer\(\)$", s)
         if m:
             return f"tell {m.group(1)} {m.group(2)}"
-        m = re.match(r"^self\.get_actor\('(\w+)'\)\.(\w+)\(\)\.get\(\)$", s)
+        m = re.match(r"^@(\w+)\.(\w+)\(\)\.get\(\)$", s)
         if m:
             return f"ask {m.group(1)} {m.group(2)}"
         m = re.match(r"^self\.__devices\.get_(valve|pump)\('(\w+)'\)\.(on|off)\(\)$", s)
@@ -414,6 +528,8 @@ class Exec:
                     return self.run(rest, e)
 
                 b = self.lookup(st.value, env)
+                if b is None and re.match(r"^@\w+$", self.key_of(st.value, env)):
+                    b = ("obj", self.key_of(st.value, env)[1:])
                 if b is not None:
                     return bind(env, b)
                 if isinstance(st.value, (ast.BoolOp, ast.Compare)) or (isinstance(st.value, ast.UnaryOp) and isinstance(st.value.op, ast.Not)):
@@ -426,7 +542,7 @@ class Exec:
             if isinstance(st, ast.Expr):
                 if isinstance(st.value, ast.Constant):  # docstring
                     return self.run(rest, env)
-                eff = self.effect_of_call(st.value)
+                eff = self.effect_of_call(st.value, env)
                 e = env if eff is None else dict(env, effects=env["effects"] + [eff])
                 return self.run(rest, e)
             if isinstance(st, ast.Pass):
@@ -466,11 +582,16 @@ def leaves(tree):
 
 
 def find_method(tree, cls, method):
+    """the method, with the private names of its class replaced by their canonical (role) names"""
+    import copy
+
     for c in ast.walk(tree):
         if isinstance(c, ast.ClassDef) and c.name == cls:
+            ren = resolve_roles(c, cls)
+            wanted = {v: k for k, v in ren.items()}.get(method, method)
             for f in c.body:
-                if isinstance(f, ast.FunctionDef) and f.name == method:
-                    return f
+                if isinstance(f, ast.FunctionDef) and f.name == wanted:
+                    return _Canon(ren).visit(copy.deepcopy(f)) if ren else f
     return None
 
 
